@@ -173,6 +173,7 @@ def run(ctx: common.Run):
     check_virtual_moments(ctx, cirq, max(15, n // 3))
     check_insertion_model(ctx, cirq, 60 if ctx.tier == 'quick' else 1500)
     check_noise_properties_measurements(ctx, cirq, 20 if ctx.tier == 'quick' else 300)
+    check_circuit_superoperator(ctx, cirq, 25 if ctx.tier == 'quick' else 400)
     check_thermal(ctx, cirq, max(10, n // 3))
 
 
@@ -537,6 +538,55 @@ def check_noise_properties_measurements(ctx, cirq, n):
         if got != want:
             ctx.report_witness('noise:properties-measurements', 'the measurements of the noisy circuit are not the measurements of the circuit (qubits, key, invert mask, order)',
                                {'lines': [{'circuit': repr(circuit)}], 'impl_out': [repr(got)[:1200]], 'spec_out': [repr(want)[:1200]], 'theorem_or_correspondence': 'noise model leaves measurements alone'})
+
+
+def check_circuit_superoperator(ctx, cirq, n):
+    """the superoperator of a circuit on qubits and qutrits (one-qid gates and channels per moment, idle qids allowed) is the product of
+    its moments' superoperators, each the Kronecker product of the operations' Kraus sums; has_superoperator answers accordingly"""
+    rng = ctx.substream('circuit-superoperator')
+
+    def sup(ks):
+        return sum(np.kron(np.asarray(k), np.asarray(k).conj()) for k in ks)
+
+    for it in range(n):
+        qs = [cirq.LineQid(j, rng.choice([2, 2, 3])) for j in range(rng.choice([1, 2]))]
+        if it == 0:
+            qs = [cirq.LineQid(0, 3)]
+        moments, mats = [], []
+        for _ in range(rng.randint(1, 3)):
+            ops, factors = [], []
+            for q in qs:
+                if rng.random() < 0.3:
+                    factors.append([np.eye(q.dimension)])
+                    continue
+                if q.dimension == 2:
+                    g = rng.choice([cirq.X ** 0.5, cirq.H, cirq.bit_flip(0.2), cirq.amplitude_damp(0.3), cirq.depolarize(0.1), cirq.ResetChannel()])
+                else:
+                    g = rng.choice([cirq.XPowGate(dimension=3), cirq.ZPowGate(dimension=3) ** 0.5, cirq.ResetChannel(dimension=3)])
+                ops.append(g.on(q))
+                factors.append([np.asarray(k) for k in cirq.kraus(g)])
+            moments.append(cirq.Moment(ops))
+            full = [np.array([[1.0 + 0j]])]
+            for f in factors:
+                full = [np.kron(a, b) for a in full for b in f]
+            mats.append(sup(full))
+        circuit = cirq.Circuit(moments)
+        if set(circuit.all_qubits()) != set(qs):
+            continue
+        want = np.eye(mats[0].shape[0], dtype=complex)
+        for m in mats:
+            want = m @ want
+        ctx.count('check', 'circuit-superoperator')
+        ctx.case(['circuit-superoperator', repr(circuit)], any(q.dimension == 3 for q in qs))
+        rep = {'lines': [{'circuit': repr(circuit)}], 'theorem_or_correspondence': 'superoperator of a composition = product of superoperators'}
+        try:
+            has = circuit._has_superoperator_()
+            got = circuit._superoperator_() if has else None
+        except Exception as e:  # noqa: BLE001
+            ctx.report_witness('circuit:superoperator:raises', f'the circuit says it has a superoperator and raises when asked for it: {type(e).__name__}: {str(e)[:80]}', dict(rep, impl_out=[str(e)[:200]], spec_out=[list(want.shape)]))
+            continue
+        if got is None or got.shape != want.shape or not np.allclose(got, want, atol=1e-8):
+            ctx.report_witness('circuit:superoperator', 'the superoperator of the circuit is not the product of its moments\' superoperators', dict(rep, impl_out=[None if got is None else list(got.shape)], spec_out=[list(want.shape)]))
 
 
 def check_noisy_runs(ctx, cirq, n):
